@@ -43,11 +43,25 @@ def confirm(src: Path, n: str, name: str) -> int:
     if rc:
         print(out)
         return 2
+    # some demonstrations hard-code the sub-agent's own worktree path: run a copy in which that path
+    # names the confirmation worktree
+    agent_wt = None
+    m = re.search(r'/tmp/wt2?/C\d\d', demo.read_text())
+    if m:
+        agent_wt = m.group(0)
+        work = wt.parent / 'demo'
+        shutil.copytree(src, work, ignore=shutil.ignore_patterns('__pycache__', '*.pyc'))
+        for f in work.rglob('*.py'):
+            t = f.read_text()
+            f.write_text(t.replace(agent_wt, str(wt)).replace(str(src), str(work)))
+        demo_run = work / demo.name
+    else:
+        demo_run = demo
     result = {}
     try:
         env = dict(os.environ, PYTHONDONTWRITEBYTECODE='1')
         env.pop('DASHLIVE_VERIF', None)
-        rc, out = sh(['/venv/bin/python', str(demo)], cwd=wt, env=env, timeout=600)
+        rc, out = sh(['/venv/bin/python', str(demo_run)], cwd=wt, env=env, timeout=600)
         result['demo_clean_rc'] = rc
         rc, out = sh(['git', 'apply', str(patch)], cwd=wt)
         if rc:
@@ -63,7 +77,7 @@ def confirm(src: Path, n: str, name: str) -> int:
         rc, out = sh(PYTEST, cwd=wt, env=env)
         tail = out.strip().splitlines()[-1] if out.strip() else ''
         result['tests'] = tail
-        rc, out = sh(['/venv/bin/python', str(demo)], cwd=wt, env=env, timeout=600)
+        rc, out = sh(['/venv/bin/python', str(demo_run)], cwd=wt, env=env, timeout=600)
         result['demo_patched_rc'] = rc
         result['demo_patched_tail'] = out.strip().splitlines()[-3:]
     finally:
@@ -104,8 +118,11 @@ def confirm(src: Path, n: str, name: str) -> int:
     (dst / 'demo.py').write_text(demo_text)
     for f in [dst / 'demo.py'] + [x for x in dst.rglob('*.py')]:
         t = f.read_text()
-        if str(src) in t:
-            f.write_text(t.replace(str(src), str(dst)))
+        t2 = t.replace(str(src), str(dst))
+        if agent_wt:
+            t2 = t2.replace(agent_wt, str(REPO))     # the stored demonstration runs against /repo
+        if t2 != t:
+            f.write_text(t2)
     rc, out = sh(['/venv/bin/python', str(dst / 'demo.py')], cwd=REPO, timeout=600,
                  env=dict(os.environ, PYTHONDONTWRITEBYTECODE='1'))
     if rc != 0:
@@ -114,7 +131,7 @@ def confirm(src: Path, n: str, name: str) -> int:
     meta = {
         'name': name,
         'property': meta_all['property'],
-        'origin': 'fresh sub-agent given only the property text and a scratch worktree',
+        'origin': 'fresh sub-agent given only the property text and a scratch worktree' + (' (second round: asked for less obvious mechanisms)' if 'seed_out2' in str(src) else ''),
         'summary': entry.get('summary'),
         'trigger': entry.get('trigger'),
         'files': result['files'],
